@@ -45,7 +45,7 @@ func c07FillerOfLen(r *Rand, n int, noctx bool) string {
 func c07BuildExpr(b *c07Built, w *c07WF, rr *Rand, sh c07Shift, cat *c07Catalogue, wantFlow *bool) {
 	// the diagnostic class is drawn first, then a site that can host it, then the entry, so that
 	// every class gets the same share of the cases
-	classes := []string{"lexer", "lexer-eof", "parser", "sema-var", "sema-func", "sema-prop", "sema-type", "sema-arg", "sema-arg", "sema-sub", "avail", "untrusted", "template"}
+	classes := []string{"lexer", "lexer-eof", "parser", "sema-var", "sema-func", "sema-prop", "sema-type", "sema-arg", "sema-arg", "sema-sub", "sema-not", "sema-not", "avail", "untrusted", "template"}
 	want := classes[rr.Intn(len(classes))]
 	var pool []*c07ExprErr
 	for i := range cat.exprErrs {
